@@ -1,0 +1,145 @@
+/*
+ * Atree - Scalable Arrays and Ordered Maps
+ *
+ * Copyright Flow Foundation
+ *
+ * Licensed under the Apache License, Version 2.0 (the "License");
+ * you may not use this file except in compliance with the License.
+ * You may obtain a copy of the License at
+ *
+ *   http://www.apache.org/licenses/LICENSE-2.0
+ *
+ * Unless required by applicable law or agreed to in writing, software
+ * distributed under the License is distributed on an "AS IS" BASIS,
+ * WITHOUT WARRANTIES OR CONDITIONS OF ANY KIND, either express or implied.
+ * See the License for the specific language governing permissions and
+ * limitations under the License.
+ */
+
+//go:build verif
+
+package atree
+
+//@ # ---------------------------------------------------------------- array_iterator.go, array.go range iterators (C13, C18)
+
+//@ pred acount(a *Array) = hdrOf(a.root).count
+
+//@ func NewSliceOutOfBoundsError(startIndex, endIndex, minIndex, maxIndex) (r)  serves C18
+//@   ensures r != nil && isUser(r) && fresh(r)
+//@   modifies alloc
+
+//@ func NewInvalidSliceIndexError(startIndex, endIndex) (r)  serves C18
+//@   ensures r != nil && isUser(r) && fresh(r)
+//@   modifies alloc
+
+//@ # range validation: out-of-range or inverted bounds are rejected as user errors; an empty range yields the empty iterator;
+//@ # otherwise the iterator covers exactly [startIndex, endIndex)
+//@ func (a *Array) RangeIterator(startIndex, endIndex) (it, err)  serves C13 C18
+//@   requires isArr(a.root)
+//@   ensures[C18] (startIndex > acount(a) || endIndex > acount(a) || startIndex > endIndex) ==> err != nil && isUser(err) && it == nil
+//@   ensures[C13] startIndex <= endIndex && endIndex <= acount(a) ==> err == nil
+//@   ensures[C13] startIndex < endIndex && endIndex <= acount(a) ==> it != nil && is(it, *mutableArrayIterator) && fresh(it) &&
+//@        as(it, *mutableArrayIterator).array == a && as(it, *mutableArrayIterator).nextIndex == startIndex && as(it, *mutableArrayIterator).lastIndex == endIndex
+//@   ensures[C13] startIndex == endIndex && endIndex <= acount(a) ==> it == emptyMutableArrayIterator
+//@   modifies alloc
+
+//@ # flat(s, i): the element at flattened position i below slab s (ghost; defined by the unfolding assumed where it is used)
+//@ ghost flat : fn(s ref, i int) ref
+//@ pred flatDef(s ArraySlab) = (is(s, *ArrayDataSlab) ==> (forall i int :: {flat(s, i)} 0 <= i && i < len(as(s, *ArrayDataSlab).elements) ==> flat(s, i) == as(s, *ArrayDataSlab).elements[i])) &&
+//@      (is(s, *ArrayMetaDataSlab) ==> (forall i int, k int :: {flat(s, i), as(s, *ArrayMetaDataSlab).childrenCountSum[k]} {flat(s, i), as(s, *ArrayMetaDataSlab).childrenHeaders[k]} 0 <= k && k < len(as(s, *ArrayMetaDataSlab).childrenHeaders) && i < as(s, *ArrayMetaDataSlab).childrenCountSum[k] &&
+//@            ite(k > 0, as(s, *ArrayMetaDataSlab).childrenCountSum[k - 1], 0) <= i ==>
+//@            flat(s, i) == flat(sto[as(s, *ArrayMetaDataSlab).childrenHeaders[k].slabID], i - ite(k > 0, as(s, *ArrayMetaDataSlab).childrenCountSum[k - 1], 0))))
+
+//@ func getArraySlab(storage, id) (slab, err)  serves C13 C18
+//@   requires storage != nil
+//@   ensures err == nil ==> slab == sto[id] && isArr(slab)
+//@   ensures[C18] err != nil ==> slab == nil && categorised(err)
+//@   modifies alloc
+
+//@ # descent to the leftmost leaf: the result is a leaf and its element 0 is flattened position 0
+//@ func firstArrayDataSlab(storage, slab) (r, err)  serves C13 C18
+//@   requires storage != nil && isArr(slab)
+//@   assume is(slab, *ArrayMetaDataSlab) ==> wfMeta(as(slab, *ArrayMetaDataSlab)) because "tree invariant: index slabs on the descent path are well formed (C01)"
+//@   assume flatDef(slab) because "definition of the ghost function flat (unfolding at this slab)"
+//@   ensures err == nil ==> r != nil
+//@   ensures err == nil && is(slab, *ArrayDataSlab) ==> r == slab
+//@   ensures err == nil && len(r.elements) > 0 ==> r.elements[0] == flat(slab, 0)
+//@   ensures[C18] err != nil ==> r == nil && categorised(err)
+//@   modifies alloc
+
+//@ # descent by index: the result leaf and the adjusted index address flattened position `index`
+//@ func getArrayDataSlabWithIndex(storage, slab, index) (r, adj, err)  serves C13 C18
+//@   requires storage != nil && isArr(slab)
+//@   assume is(slab, *ArrayMetaDataSlab) ==> wfMeta(as(slab, *ArrayMetaDataSlab)) because "tree invariant: index slabs on the descent path are well formed (C01)"
+//@   assume flatDef(slab) because "definition of the ghost function flat (unfolding at this slab)"
+//@   ensures err == nil ==> r != nil && adj < len(r.elements) && r.elements[adj] == flat(slab, index)
+//@   ensures[C18] err != nil ==> r == nil && categorised(err)
+//@   modifies alloc
+
+//@ func (a *Array) ReadOnlyRangeIteratorWithMutationCallback(startIndex, endIndex, cb) (it, err)  serves C13 C18
+//@   requires isArr(a.root) && a.Storage != nil
+//@   assume is(a.root, *ArrayMetaDataSlab) ==> wfMeta(as(a.root, *ArrayMetaDataSlab)) because "tree invariant: the root index slab is well formed (C01)"
+//@   assume flatDef(a.root) because "definition of the ghost function flat (unfolding at the root)"
+//@   assume is(a.root, *ArrayDataSlab) ==> as(a.root, *ArrayDataSlab).header.count == len(as(a.root, *ArrayDataSlab).elements) because "tree invariant: a leaf's count is its number of elements (C01)"
+//@   ensures[C18] (startIndex > acount(a) || endIndex > acount(a) || startIndex > endIndex) ==> err != nil && isUser(err) && it == nil
+//@   ensures[C18] err != nil ==> categorised(err)
+//@   ensures[C13] startIndex == endIndex && endIndex <= acount(a) ==> err == nil && it == emptyReadOnlyArrayIterator
+//@   ensures[C13] err == nil && startIndex < endIndex ==> is(it, *readOnlyArrayIterator) && fresh(it) && as(it, *readOnlyArrayIterator).array == a &&
+//@        as(it, *readOnlyArrayIterator).remainingCount == endIndex - startIndex && as(it, *readOnlyArrayIterator).dataSlab != nil &&
+//@        (cb != nil ==> as(it, *readOnlyArrayIterator).valueMutationCallback == cb)
+//@   ensures[C13] err == nil && startIndex < endIndex && is(a.root, *ArrayDataSlab) ==> as(it, *readOnlyArrayIterator).dataSlab == a.root && as(it, *readOnlyArrayIterator).indexInDataSlab == startIndex
+//@   ensures[C13] err == nil && startIndex < endIndex && (startIndex > 0 || len(as(it, *readOnlyArrayIterator).dataSlab.elements) > 0) ==> as(it, *readOnlyArrayIterator).indexInDataSlab < len(as(it, *readOnlyArrayIterator).dataSlab.elements) &&
+//@        as(it, *readOnlyArrayIterator).dataSlab.elements[as(it, *readOnlyArrayIterator).indexInDataSlab] == flat(a.root, startIndex)
+//@   modifies alloc
+
+//@ # positional read: a position at or beyond the element count is a user error, never a silent nil
+//@ func (a *Array) Get(i) (v, err)  serves C13 C18
+//@   assume rootReady(a) because "tree invariant at the root (composition)"
+//@   ensures[C18] i >= acount(a) ==> err != nil && isUser(err)
+//@   ensures[C18] err != nil ==> v == nil && categorised(err)
+//@   ensures err == nil ==> i < acount(a)
+//@   ensures forall vid ValueID :: has(a.mutableElementIndex, vid) && a.mutableElementIndex[vid] != i ==> old(has(a.mutableElementIndex, vid)) && a.mutableElementIndex[vid] == old(a.mutableElementIndex[vid])
+//@   modifies a.mutableElementIndex, Array.parentUpdater, OrderedMap.parentUpdater, alloc
+
+//@ # one step of the mutable iterator: reads position nextIndex and advances by exactly one; stops (nil, nil) exactly at lastIndex;
+//@ # an error leaves the cursor where it was; a cursor that ran past the end of the array is an error, not a silent stop
+//@ func (i *mutableArrayIterator) Next() (v, err)  serves C13 C18
+//@   requires i.array != nil && i.nextIndex <= i.lastIndex
+//@   ensures[C13] i.nextIndex == old(i.nextIndex) + ite(err == nil && old(i.nextIndex) != old(i.lastIndex), 1, 0) && i.lastIndex == old(i.lastIndex) && i.array == old(i.array)
+//@   ensures[C13] old(i.nextIndex) == old(i.lastIndex) ==> v == nil && err == nil
+//@   ensures[C13] i.nextIndex <= i.lastIndex
+//@   ensures[C18] old(i.nextIndex) != old(i.lastIndex) && old(i.nextIndex) >= old(acount(i.array)) ==> err != nil && isUser(err)
+//@   ensures[C18] err != nil ==> v == nil && categorised(err)
+//@   modifies i.nextIndex, Array.mutableElementIndex@(recv == i.array), Array.parentUpdater, OrderedMap.parentUpdater, alloc
+
+//@ iface mutableValueNotifier.setParentUpdater(f)
+//@   modifies Array.parentUpdater, OrderedMap.parentUpdater
+
+//@ func (a *Array) setParentUpdater(f)  serves C10
+//@   ensures a.parentUpdater == f
+//@   modifies a.parentUpdater
+
+//@ func (m *OrderedMap) setParentUpdater(f)  serves C10
+//@   ensures m.parentUpdater == f
+//@   modifies m.parentUpdater
+
+//@ # a value handed out by the read-only iterator gets an updater that refuses mutation; nothing else is written
+//@ func (i *readOnlyArrayIterator) setMutationCallback(value)  serves C13
+//@   modifies Array.parentUpdater, OrderedMap.parentUpdater, alloc
+
+//@ # one step of the read-only iterator: yields elements[indexInDataSlab] of the current leaf, moves to the next leaf through the
+//@ # sibling link when the current one is exhausted, and never yields more than remainingCount elements
+//@ func (i *readOnlyArrayIterator) Next() (v, err)  serves C13 C18
+//@   requires i.array != nil && i.array.Storage != nil && i.dataSlab != nil && i.valueMutationCallback != nil
+//@   requires forall k :: 0 <= k && k < len(i.dataSlab.elements) ==> i.dataSlab.elements[k] != nil
+//@   assume forall id SlabID :: is(sto[id], *ArrayDataSlab) ==> (forall k :: 0 <= k && k < len(as(sto[id], *ArrayDataSlab).elements) ==> as(sto[id], *ArrayDataSlab).elements[k] != nil)
+//@        because "tree invariant: stored leaves hold non-nil elements"
+//@   assume i.dataSlab.next != SlabIDUndefined && sto[i.dataSlab.next] != nil ==> is(sto[i.dataSlab.next], *ArrayDataSlab) because "tree invariant: a leaf's sibling link names a leaf (C01)"
+//@   ensures[C13] old(i.remainingCount) == 0 ==> v == nil && err == nil && i.remainingCount == 0
+//@   ensures[C13] err == nil && v != nil ==> i.remainingCount == old(i.remainingCount) - 1
+//@   ensures[C13] err == nil && v != nil && old(i.indexInDataSlab) < old(len(i.dataSlab.elements)) ==> i.dataSlab == old(i.dataSlab) && i.indexInDataSlab == old(i.indexInDataSlab) + 1
+//@   ensures[C13] err == nil && v != nil && old(i.indexInDataSlab) >= old(len(i.dataSlab.elements)) ==> i.dataSlab == sto[old(i.dataSlab.next)] && i.indexInDataSlab == 1
+//@   ensures[C13] err == nil && old(i.remainingCount) > 0 && old(i.indexInDataSlab) >= old(len(i.dataSlab.elements)) && old(i.dataSlab.next) == SlabIDUndefined ==> v == nil
+//@   ensures[C13] err != nil ==> i.remainingCount == old(i.remainingCount)
+//@   ensures[C18] err != nil ==> v == nil && categorised(err)
+//@   modifies i.dataSlab, i.indexInDataSlab, i.remainingCount, Array.parentUpdater, OrderedMap.parentUpdater, alloc
